@@ -372,10 +372,6 @@ theorem C12_step_safe (F : Format) (S : SafeLaws F) (st : St) (op : Op) (hwf : S
       subst hs
       exact h
 
-theorem init_wf (slots : Nat) : StWF (St.init slots) := by
-  show WF Heap.empty (liveTs (List.replicate slots none))
-  rw [liveTs_replicate]; exact WF.empty
-
 /-- **All histories.**  Every state reachable from the empty pool satisfies the invariant — for
 the formats with `SafeLaws` (Bytes, ASCII, Latin1, WTF8), whatever bytes they hold … -/
 theorem C12_reachable (F : Format) (S : SafeLaws F) (slots : Nat) (ops : List Op) :
@@ -945,5 +941,10 @@ example : Mon.run [.free 0 16, .free 0 16, .alloc 0 16] = none := by decide
 example : Mon.run [.free 0 16, .write 0 0 9, .alloc 0 16] = some [(16, false)] := by decide
 example : Mon.run [.write 0 0 9, .free 0 16, .alloc 0 16] = none := by decide
 example : Mon.run [.write 0 0 17, .alloc 0 16] = none := by decide
+
+/-- a history after which dropping the pool releases both buffers -/
+example : ((run Format.bytes (St.init 4)
+    [.fromBytes 0 [1,2,3,4,5,6,7,8,9,10], .clone 0 1, .pushBytes 1 [0xff], .drop 0, .drop 1]).heap.bufs.map
+      (·.live)) = [false, false] := by decide
 
 end H5V.Props.C12
